@@ -214,11 +214,11 @@ func init() {
 		Shapes: portfolioMain,
 		Rule: "carrier files written by the reference writer (3 row groups, up to 3 pages per chunk, each of the 3 supported codecs); one column chunk is rewritten to use one unsupported feature, really encoded: " +
 			"dictionary page + RLE_DICTIONARY / PLAIN_DICTIONARY data page, dictionary page followed by plain pages, index page, data page v2, DELTA_BINARY_PACKED, DELTA_LENGTH_BYTE_ARRAY, DELTA_BYTE_ARRAY, BYTE_STREAM_SPLIT, RLE booleans, " +
-			"BIT_PACKED definition / repetition levels, codecs LZO (opaque body), BROTLI, LZ4, ZSTD, LZ4_RAW; every column x feature (quick: 2 (row group, page position) placements; thorough: all 9 x 3 codecs); " +
+			"BIT_PACKED definition / repetition levels, codecs LZO (opaque body), BROTLI, LZ4, ZSTD, LZ4_RAW and unassigned codec ids (8, 1000, -1); every column x feature (quick: 2 (row group, page position) placements; thorough: all 9 x 3 codecs); " +
 			"oracle = constructor or Error() reports an error, no panic; distinct = case id; non-trivial = feature placed in a later row group or a later page",
 		Require: []string{"feature_dictionary_rle", "feature_dictionary_plain", "feature_dictionary_page_then_plain", "feature_index_page", "feature_data_page_v2", "feature_delta_binary_packed",
 			"feature_delta_length_byte_array", "feature_delta_byte_array", "feature_byte_stream_split", "feature_rle_boolean", "feature_bit_packed_def_levels", "feature_bit_packed_rep_levels",
-			"feature_codec_lzo", "feature_codec_brotli", "feature_codec_lz4", "feature_codec_zstd", "feature_codec_lz4_raw", "feature_in_later_row_group", "feature_in_later_page"},
+			"feature_codec_lzo", "feature_codec_brotli", "feature_codec_lz4", "feature_codec_zstd", "feature_codec_lz4_raw", "feature_codec_unassigned_8", "feature_codec_unassigned_1000", "feature_codec_negative", "feature_in_later_row_group", "feature_in_later_page"},
 	})
 	addSpec(&Spec{ID: "C05", Title: "parquetgen never emits silently wrong code", Level: "translation_validation",
 		Rule: "programs = every struct shape of the bounded grammar (ordered forests of {leaf, group} x {required, optional, repeated}, depth <= 3, leaf types round-robin over the 8 primitives): " +
@@ -245,7 +245,7 @@ func init() {
 		Custom: customC05,
 	})
 	addSpec(&Spec{ID: "C14", Title: "excluded fields are inert and embedding equals inlining", Level: "translation_validation",
-		Rule: "programs = base shapes from the C05 universe that have no C05 finding (quick 150 with <= 4 nodes, thorough 500 with <= 5 nodes) and their decorated variants: an excluded field (rotating over 16 forms: lower-case, blank, underscore, " +
+		Rule: "programs = base shapes from the C05 universe that have no C05 finding (quick 150 with <= 4 nodes, thorough 500 with <= 5 nodes) and their decorated variants: an excluded field (rotating over 18 forms: lower-case, blank, underscore, multi-name declarations (all unexported; an unexported name added to the declaration of an exported field), " +
 			"non-ASCII lower-case, unexported map/pointer-to-struct, parquet:\"-\" on string/map/chan/func/time.Time/slice/interface, other tag keys before/after) inserted at a position of a struct at any nesting level, one variant with a field at every position, " +
 			"and variants in which a contiguous run of sibling fields is moved into an embedded struct (quick: 2+1+2 variants per base; thorough: every position and every run); " +
 			"oracle = files byte-identical to the base's for the same records (3 configurations), excluded fields (filled with junk before Add) zero after reading into a fresh struct, values read back; distinct = (base, decoration); non-trivial = decoration below the root or at every position",
